@@ -156,9 +156,15 @@ func (c *Real64) POW(a, k *Real64) *Real64 {
     return c.realDyadicLazy(a, k, v0, f1, f2)
   } else {
     f1 := func() (float64) {
+      if y == 0.0 {
+        return 0.0
+      }
       return math.Pow(x, y-1)*y
     }
     f2 := func() (float64) {
+      if y == 0.0 || y == 1.0 {
+        return 0.0
+      }
       return math.Pow(x, y-2)*(y - 1)*y
     }
     return c.realMonadicLazy(a, v0, f1, f2)
